@@ -61,31 +61,33 @@ Theorem C03_crash_safety_values_partial :
 Proof. exact crash_safety. Qed.
 Print Assumptions C03_crash_safety_values_partial.
 
-(* REFUTED for the code as it is (known finding D, a regression of 09014a8 combined with the
-   in-memory-only ahtree.ResetSize): transaction 1 committed and acknowledged; 2 and 3 precommitted,
-   the tree reaches its sync threshold and fsyncs 3 leaves, crash before the tx log is fsynced;
-   recovery resets the tree to 1 leaf IN MEMORY; the next precommit appends leaf 2' at offset 32 =
-   the digest log is truncated there while the tree's commit log still lists 3 entries; second
-   crash with the truncation on disk: ahtree.OpenWith fails ("hash log is corrupted"), the store does
-   not open although it holds an acknowledged commit. *)
+(* REFUTED for the code as it is (known finding D, since 09014a8; c_ahtreset = RCut = fix 6a85281,
+   ahtree.ResetSize rewinds the tree's commit log but does not fsync it): transaction 1 committed and
+   acknowledged; 2 and 3 precommitted, the tree reaches its sync threshold and fsyncs 3 leaves, crash
+   before the tx log is fsynced; recovery resets the tree to 1 leaf (commit log truncated, pending);
+   the next precommit appends leaf 2' at offset 32 = the digest log is truncated there (chunk files
+   removed and the directory fsynced when the rewind crosses a chunk boundary); second crash with the
+   second truncation on disk and the first not: the tree's commit log still lists 3 entries,
+   ahtree.OpenWith fails ("hash log is corrupted" / "data log is corrupted"), the store does not open
+   although it holds an acknowledged commit. *)
 Theorem C03_crash_safety_values_refuted :
   exists (c : cfg) (nv : nat) (s : st) (im : images),
-    c_prealloc c = false /\ 0 < c_thld c /\ c_ahtsync c = true /\ c_ahtreset c = false /\
+    c_prealloc c = false /\ 0 < c_thld c /\ c_ahtsync c = true /\ c_ahtreset c = RCut /\
     reach Hh c nv s /\ crash s im /\ acked s = 1 /\
     len (i_ahd im) < 32 * (len (i_ahc im) / 12) /\
     recover Hh c im = Err ECorruptedData.
 Proof. exact aht_truncation_refuted. Qed.
 Print Assumptions C03_crash_safety_values_refuted.
 
-(* With the proposed repair fixes/C03-aht-durable-reset.diff (ahtree.ResetSize rewinds the tree's
-   commit log and fsyncs it before the payload/digest logs can be truncated; model switch
-   c_ahtreset = true — NOT what the correspondence run compares with the code, Tie.C03.aht_durable_reset
-   = false): the exception disappears, recovery succeeds on EVERY crash image of EVERY reachable
+(* With the proposed repair fixes/C03-aht-durable-reset.diff (ahtree.ResetSize fsyncs the tree's
+   commit log after rewinding it, before the payload/digest logs can be truncated; model switch
+   c_ahtreset = RSync — NOT what the correspondence run compares with the code, Tie.C03.aht_durable_reset
+   = RCut): the exception disappears, recovery succeeds on EVERY crash image of EVERY reachable
    state. *)
 Theorem C03_crash_safety_values_repaired :
   forall (H : bytes -> bytes), (forall x, length (H x) = 32%nat) ->
   forall (c : cfg) (nv : nat) (s : st) (im : images),
-    c_prealloc c = false -> 0 < c_thld c -> c_ahtsync c = true -> c_ahtreset c = true ->
+    c_prealloc c = false -> 0 < c_thld c -> c_ahtsync c = true -> c_ahtreset c = RSync ->
     reach H c nv s -> crash s im ->
     exists s', recover H c im = Ok s' /\ reach H c nv s' /\
       acked s <= committed s' /\ acked s' = committed s' /\ phase_ s' = PIdle /\
@@ -163,7 +165,7 @@ Print Assumptions C03_crash_during_recovery_partial.
 Theorem C03_crash_during_recovery_repaired :
   forall (H : bytes -> bytes), (forall x, length (H x) = 32%nat) ->
   forall (c : cfg) (nv : nat) (s : st) (im : images) (upto : nat) (s1 : st) (im' : images),
-    c_prealloc c = false -> 0 < c_thld c -> c_ahtsync c = true -> c_ahtreset c = true ->
+    c_prealloc c = false -> 0 < c_thld c -> c_ahtsync c = true -> c_ahtreset c = RSync ->
     reach H c nv s -> crash s im -> recover_upto H upto c im = Ok s1 -> crash s1 im' ->
     exists sf s2,
       recover H c im = Ok sf /\ recover H c im' = Ok s2 /\
